@@ -8,7 +8,7 @@ Driver for C10.
   (rm <charset> dec|enc|rep x<bytes>)  outcome class of the conversion; `Encode` is instantiated with
                                        the length-guard flag re-read from the source
   (unq x<bytes>)                       outcome class of `Unquote`
-  (auth <len> <hashOk>)                `ValidateHash` with a response of <len> bytes: returns | crash
+  (auth <len> <hashOk> <valid>)        `ValidateHash` with a response of <len> bytes: accepted | denied | crash
   (sql <stream> x<text>)               `returns`: what the property demands of every statement (the
                                        engine as a whole is not modelled; crashes reach the check
                                        through the harness's oracle stream)
@@ -39,15 +39,21 @@ def handle (p : List Sexp) : String :=
       let spec := unquoteClass (Gms.JsonQuote.unquoteSpec b)
       if impl == spec then answer impl else answer impl spec "unquote_bad_unicode_escape"
     | none => answer "bad-case"
-  | [.list [.atom "auth", n, .atom h]] =>
+  | [.list [.atom "auth", n, .atom h, .atom v]] =>
     match n.nat? with
     | some n =>
       let scramble := List.replicate 20 0
       let resp := List.replicate n 1
-      let cls := fun (a : Auth) => if a == .crash then "crash" else "returns"
+      -- `valid`: the response starts with the right token; a compared response is accepted iff it is
+      -- the token itself
+      let cls := fun (a : Auth) => match a with
+        | .crash => "crash"
+        | .compared => if v == "1" then "accepted" else "denied"
+        | .rejected => "denied"
       let impl := cls (nativePassword scramble resp (h == "1"))
       let spec := cls (nativePasswordSpec scramble resp (h == "1"))
-      if impl == spec then answer impl else answer impl spec "native_password_short_response"
+      -- equal for all inputs by `C10.native_password_eq_spec`; a disagreement has no listed region
+      if impl == spec then answer impl else answer impl spec "-"
     | none => answer "bad-case"
   | [.list [.atom "sql", _, _]] => answer "returns"
   | [.list [.atom "sql", _, _, _]] => answer "returns"
